@@ -292,7 +292,7 @@ def tiow_strings(ctx):
     if ctx.tier == 'quick':
         plan = {'utf-8': [(ALPHA_B, 3), (SMALL_B, 4)], 'latin-1': [(SMALL_B, 4)]}
     else:
-        plan = {'utf-8': [(ALPHA_B, 4), (SMALL_B, 6)], 'latin-1': [(ALPHA_B, 3), (SMALL_B, 6)]}
+        plan = {'utf-8': [(ALPHA_B, 4), (SMALL_B, 5)], 'latin-1': [(ALPHA_B, 3), (SMALL_B, 5)]}
     seen = set()
     for e, specs in plan.items():
         for alpha, top in specs:
